@@ -262,6 +262,7 @@ Section De.
     - rewrite unpack_TUnion. apply dtry_inv. apply Forall_forall. intros d Hd.
       apply in_map_iff in Hd as [c [Hd _]]. subst d. intros n0. apply call_dc_inv. exact IHd.
     - rewrite unpack_TDisc. apply dispatch_inv. intros v n0. apply call_dc_inv. exact IHd.
+    - rewrite unpack_TDiscU. apply dispatch_inv. intros v n0. apply call_dc_inv. exact IHd.
   Qed.
 
   Theorem unpack_inv : forall w, dgood2 w.
